@@ -4,6 +4,7 @@ import PsycheModel.ClimbReal
 import PsycheModel.Lemmas.Rotate
 import PsycheModel.Lemmas.Expr
 import PsycheModel.Lemmas.ExprSound
+import PsycheModel.Lemmas.ExprFuel
 import PsycheModel.ExprReal
 /-!
 # C06 — Expression trees respect C operator precedence and associativity
@@ -208,6 +209,21 @@ a token below the cutoff. -/
 theorem parse_result_derivable (T : Tbl) (hT : T.Sane) (hra : T.ra T.asg = true) {f c : Nat} {ts : List Tok} {e : E} {rest : List Tok}
     (h : nary T f c ts = some (e, rest)) (hc : 1 ≤ c) : okW T e = true ∧ atLevel T c e = true ∧ hprec T rest < c :=
   (shp_all T hT hra f).nary _ _ _ _ h hc
+
+/-- **Bounded recursion; the model as a decision procedure.**  For ANY tables: every successful parse consumes at least one
+token, and whatever any fuel yields on a token list, fuel `4 · length + 3` yields: the recursion depth of the expression parser
+(eight mutually recursive functions, two of them loops that re-enter each other on the same token) is bounded by four times the
+number of tokens, and running the model with that fuel decides acceptance. -/
+theorem nary_fuel_bound (T : Tbl) {f c : Nat} {ts : List Tok} {x : E × List Tok} (h : nary T f c ts = some x) :
+    nary T (4 * ts.length + 3) c ts = some x := (bound_all T ts.length).bN c ts x f (Nat.le_refl _) h
+theorem nary_consumes (T : Tbl) {f c : Nat} {ts : List Tok} {e : E} {rest : List Tok} (h : nary T f c ts = some (e, rest)) :
+    rest.length < ts.length := (consE_all T f).cN c ts e rest h
+
+/-- the round trip with the fuel named -/
+theorem expression_parse_pp_fuel (T : Tbl) (hT : T.Sane) (e : E) (hok : ok T e = true) :
+    nary T (4 * (pp T e).length + 3) 1 (pp T e) = some (e, []) := by
+  obtain ⟨f, hf⟩ := expression_parse_pp T hT e hok
+  exact nary_fuel_bound T hf
 
 /-- the strict grammar implies the lenient one -/
 theorem okW_of_ok (T : Tbl) : ∀ e : E, ok T e = true → okW T e = true
